@@ -155,12 +155,24 @@ def run(c):
             for j, cs in enumerate(ch):
                 u, a = raylib.FRAMES[cs["frame"]]
                 ps = raylib.phys_scale(cs["d"], u)
+                crng = random.Random(j * 7919 + i)
                 for S in cs["layouts"]:
-                    fh.write("%d %d %d %d %d %d %d %d %d %r %r %r %r %r %r %d %d %d %d %d %d %r 0.5 2.0 4.0e15 400 %s\n" % (
+                    base = "%d %d %d %d %d %d %d %d %d %r %r %r %r %r %r %d %d %d %d %d %d %r 0.5 2.0 4.0e15 400 %s" % (
                         cs["G"][0], cs["G"][1], cs["G"][2], S[0], S[1], S[2], cs["per"][0], cs["per"][1], cs["per"][2],
                         u[0], u[1], u[2], a[0], a[1], a[2], cs["p"][0], cs["p"][1], cs["p"][2], cs["d"][0], cs["d"][1], cs["d"][2],
-                        cs["tau2"] / 2., " ".join(repr(k / (2.0 * ps)) for k in cs["kapG"])))
+                        cs["tau2"] / 2., " ".join(repr(k / (2.0 * ps)) for k in cs["kapG"]))
+                    fh.write(base + "\n")
                     idx.append((j, S))
+                    if j % 2 == 0:
+                        # the same packet through duplicated subgrids (seeded copy levels 0..3, seeded choice of the copy it
+                        # starts in); the deposits are folded back onto the originals before they are compared
+                        nsub = S[0] * S[1] * S[2]
+                        while True:
+                            lv = [crng.choice([0, 0, 1, 1, 2, 3]) for _ in range(nsub)]
+                            if sum(2 ** l for l in lv) <= 48:
+                                break
+                        fh.write(base + " L %d %s\n" % (crng.randrange(1000), " ".join(map(str, lv))))
+                        idx.append((j, tuple(S) + ("copies",)))
         o = os.path.join(rd, "multi_%d.ndjson" % i)
         rc, out = vlib.sh("%s multi %s %s" % (exe, f, o), timeout=1800)
         if rc != 0:
@@ -200,8 +212,10 @@ def compare_multi(c, cs, rs, S, g):
     G = cs["G"]
     diag = math.sqrt(sum((4 * cs["n"][k] * u[k]) ** 2 for k in range(3)))
     tol = 4 * TOL * diag
-    sig = "layout=%dx%dx%d:per=%d%d%d" % (tuple(S) + tuple(cs["per"]))
-    c.add_case(("ray", tuple(cs["p"]), tuple(cs["d"]), tuple(S), tuple(cs["per"])), nontrivial=tuple(S) != (1, 1, 1))
+    withcopies = len(S) == 4
+    S = tuple(S[:3])
+    sig = "layout=%dx%dx%d%s:per=%d%d%d" % (S + (":copies" if withcopies else "",) + tuple(cs["per"]))
+    c.add_case(("ray", tuple(cs["p"]), tuple(cs["d"]), S, withcopies, tuple(cs["per"])), nontrivial=S != (1, 1, 1) or withcopies)
     info = {"case": {k: cs[k] for k in ("G", "per", "p", "d", "kapG", "tau2", "frame")}, "layout": S, "spec": rs, "code": g}
     # fold the unfolded deposits back
     N = cs["n"]
